@@ -180,6 +180,47 @@ def relative(ctx, k):
                     ["regulate"], k, ival, False, "RelativeSupplyController")
 
 
+def stepwise_default_interval(ctx, k):
+    """a Stepwise built by calling the @stepwise skeleton with the pool only runs with the default interval"""
+    from cobald.controller.stepwise import UnboundStepwise
+    p = _pool(ctx)
+    base = Rule("base", ctx.num("r_base"))
+    ub = UnboundStepwise(base)
+    t = ctx.num("t0")
+    ctx.assume(t > 0)
+    ctx.allow_hash = True
+    ub.add(Rule("rule0", None), supply=t)
+    c = ub(p)
+    ctx.allow_hash = False
+    with patched((stepwise_mod, "trio", FakeTrio(trio))):
+        coro = c.run()
+        try:
+            for j in range(k):
+                if j:
+                    _restate(ctx, p, "_%d" % j)
+                y = coro.send(None)
+                tag = "period%d: " % j
+                ctx.require(isinstance(y, tuple) and y[0] == "sleep", tag + "suspends only in sleep")
+                ctx.require(not (y[1] is None) and y[1] == 1, tag + "sleeps the default interval of one second")
+        finally:
+            coro.close()
+    ctx.reach()
+    if ctx.mode == "conc":
+        p2 = RecPool(demand=0.0, supply=1.0)
+        calls = []
+        ub2 = UnboundStepwise(lambda pool, interval: calls.append(interval))
+        svc = ub2(p2)
+        try:
+            async def main():
+                with trio.move_on_after(2.5):
+                    await svc.run()
+            trio.run(main, clock=trio.testing.MockClock(autojump_threshold=0))
+            ctx.require_concrete(calls == [1, 1, 1], "real trio clock: default-interval Stepwise acts once per second",
+                                 detail={"calls": calls})
+        except Exception as e:
+            ctx.require_concrete(False, "real trio clock: default-interval Stepwise runs without raising (%s)" % type(e).__name__)
+
+
 def stepwise(ctx, k, nrules=1):
     p = _pool(ctx)
     ival = ctx.num("interval")
@@ -252,6 +293,13 @@ def buffer(ctx, k):
     ctx.require(same(b.demand, p.demand), "buffer starts with the target's demand")
     n_init = len(p.writes)
     last = b.demand
+    # a value written through the buffer before the service gets its first turn (e.g. by a controller's
+    # immediate first step) must be forwarded at the first boundary, the start of the service
+    if ctx.flag("write_before_start"):
+        v = ctx.num("w_pre")
+        b.demand = v
+        last = v
+        ctx.require(len(p.writes) == n_init, "nothing is forwarded before the service runs")
     with patched((buffer_mod, "trio", FakeTrio(trio))):
         coro = b.run()
         try:
@@ -368,6 +416,7 @@ def tasks(tier, seed):
         Task(MOD, "linear", dict(k=2)),
         Task(MOD, "relative", dict(k=k), weight=20),
         Task(MOD, "stepwise", dict(k=k, nrules=1), weight=10),
+        Task(MOD, "stepwise_default_interval", dict(k=min(k, 3)), weight=5),
         Task(MOD, "stepwise", dict(k=min(k, 3), nrules=2), weight=10),
         Task(MOD, "switch", dict(k=k, nslaves=1), weight=10),
         Task(MOD, "switch", dict(k=min(k, 3), nslaves=2), weight=10),
